@@ -456,9 +456,16 @@ class HeapMixin:
         key = ('enum', ref.term.get_id(), has.get_id(), stamp.get_id(), size.get_id())
         if key in self._enum:
             return self._enum[key]
-        self.ctx.n += 1
-        key_at = z3.Function(f'key_at!{self.ctx.n}', I, I)
-        pos_of = z3.Function(f'pos_of!{self.ctx.n}', I, I)
+        # enumeration as *functions of the dict state* (has, stamp, size): equal states enumerate equally
+        tagk = ref.typ.key.replace('[', '_').replace(']', '').replace(',', '_').replace(':', '_')
+        f_key = z3.Function('key_at_' + tagk, has.sort(), stamp.sort(), I, I, I)
+        f_pos = z3.Function('pos_of_' + tagk, has.sort(), stamp.sort(), I, I, I)
+
+        def key_at(ix):
+            return f_key(has, stamp, size, ix)
+
+        def pos_of(kx):
+            return f_pos(has, stamp, size, kx)
         i, j, k = z3.Int('ei'), z3.Int('ej'), z3.Int('ek')
         self.fact(z3.ForAll([i], z3.Implies(z3.And(0 <= i, i < size),
                                             z3.And(z3.Select(has, key_at(i)), pos_of(key_at(i)) == i))))
